@@ -18,7 +18,7 @@ for d in sorted(os.listdir(root)):
     if not os.path.exists(p) or (only and not d.startswith(only)):
         continue
     meta = json.load(open(f'{root}/{d}/meta.json'))
-    cid = meta['property']
+    cid = meta.get('check', meta['property'])  # the check that is expected to catch it
     t0 = time.time()
     entry = {'check': cid}
     for tier in ['quick'] + (['thorough'] if thorough_on_miss else []):
